@@ -3,6 +3,7 @@
 -/
 import PasfmtModel.Proofs.ReconProps
 import PasfmtModel.Proofs.MlsBreaks
+import PasfmtModel.Proofs.CrlfFull
 
 namespace Pasfmt.C09
 
@@ -45,5 +46,146 @@ theorem mls_breaks_are_configured (cfg : Config) (content : Bytes) (ind cont : N
     ∃ (first : Bytes) (segs : List Bytes),
       c' = first ++ (segs.map (cfg.settings.nlStr ++ ·)).flatten ∧ NoNl first ∧ ∀ s ∈ segs, NoNl s :=
   mlsRewrite_breaks cfg.settings (settings_noNl cfg).1 (settings_noNl cfg).2 content ind cont c' h
+
+/-! ### second clause for the closed model of the whole formatter (`formatFull`)
+
+  The two runs (`crlf := false` / `crlf := true`) are followed token by token (`Proofs/CrlfFull.lean`).  Everything
+  before the wrapper stage does not take the configuration; the search reads it through `Config.searchCfg` (no line
+  ending) and reads live tokens through `FTok.sview` (type, length of the last line).  The texts of one token in the
+  two runs are identical (the text the stage started with) or the two renderings `first ++ (LF ++ seg)*` /
+  `first ++ (CRLF ++ seg)*` of the same lines (`CrlfFull.Joined`), which the search cannot tell apart. -/
+
+open CrlfFull
+
+/-- **One literal, two terminators.**  For a literal that ends in a quote and any counters: either the re-indenter
+    leaves it alone under both line endings, or the text after the crlf run's string pass is the text after the lf
+    run's string pass with every `\n` replaced by `\r\n` ("after the pass" = the new text if the pass changed it, the
+    old text otherwise).  In particular if both runs rewrite it, the crlf result is the substituted lf result. -/
+theorem mls_rewrite_crlf (cfg : Config) (c : Bytes) (hq : c.getLast? = some 0x27) (ind cont : Nat) :
+    (mlsRewrite ({ cfg with crlf := false }).settings c ind cont = none ∧
+      mlsRewrite ({ cfg with crlf := true }).settings c ind cont = none) ∨
+    (mlsRewrite ({ cfg with crlf := true }).settings c ind cont).getD c =
+      crlfOf ((mlsRewrite ({ cfg with crlf := false }).settings c ind cont).getD c) := by
+  rcases (mlsRewrite_pair (lfCrlf_settings cfg) c c (Or.inl rfl) hq hq ind cont).1 with h | h
+  · exact Or.inl h
+  · exact Or.inr h.crlfOf
+
+/-- both runs rewrite: the crlf text is the lf text with each terminator substituted -/
+theorem mls_rewrite_crlf_some (cfg : Config) (c a b : Bytes) (hq : c.getLast? = some 0x27) (ind cont : Nat)
+    (ha : mlsRewrite ({ cfg with crlf := false }).settings c ind cont = some a)
+    (hb : mlsRewrite ({ cfg with crlf := true }).settings c ind cont = some b) : b = crlfOf a := by
+  rcases mls_rewrite_crlf cfg c hq ind cont with h | h
+  · rw [ha] at h; cases h.1
+  · rw [ha, hb] at h; exact h
+
+/-- the two rewritten texts look the same to the line-wrapping search: same length of the last line as
+    `str::lines()` sees it (it strips the `\r`) -/
+theorem search_view_crlf (cfg : Config) (k : Kind) (c a b : Bytes) (hq : c.getLast? = some 0x27) (ind cont : Nat)
+    (ha : mlsRewrite ({ cfg with crlf := false }).settings c ind cont = some a)
+    (hb : mlsRewrite ({ cfg with crlf := true }).settings c ind cont = some b) :
+    lastLineLen k a = lastLineLen k b := by
+  rcases (mlsRewrite_pair (lfCrlf_settings cfg) c c (Or.inl rfl) hq hq ind cont).1 with h | h
+  · rw [ha] at h; cases h.1
+  · rw [ha, hb] at h; exact lastLineLen_joined k h
+
+/-- the literal `''' LF sp x LF sp '''` with one indentation (two spaces): the lf run writes
+    `''' LF sp sp x LF sp sp '''`, the crlf run the same with `\r\n` -/
+example :
+    let c : Bytes := [0x27,0x27,0x27,0x0A,0x20,0x78,0x0A,0x20,0x27,0x27,0x27]
+    let a : Bytes := [0x27,0x27,0x27,0x0A,0x20,0x20,0x78,0x0A,0x20,0x20,0x27,0x27,0x27]
+    mlsRewrite ({ Config.default with crlf := false }).settings c 1 0 = some a ∧
+    mlsRewrite ({ Config.default with crlf := true }).settings c 1 0 = some (crlfOf a) := by decide
+
+/-- **Counterexample to "both runs rewrite the same literals".**  A literal that is already in lf form at the right
+    indentation is left alone by the lf run (`none`: nothing to change) and rewritten by the crlf run.  Its text
+    after the pass is still the substituted one (`mls_rewrite_crlf`), but the crlf run marks its line as changed and
+    wraps it a second time, the lf run does not: the runs differ in which lines go through the search again.  On the
+    lf-formatted input `begin / a := / ''' / x / '''; / end.` (one item per line) the crlf run applies the solutions
+    of lines 0, 1, 2 and then of line 1 again, the lf run only those of lines 0, 1, 2; the outputs still agree
+    (`#eval`), but proving that in general needs "a second search of an unchanged line finds the same solution",
+    a theorem about the search and its cache.  Hence hypothesis (2) of `crlfStageOk`. -/
+theorem mls_rewrite_disagree_example :
+    let c : Bytes := [0x27,0x27,0x27,0x0A,0x20,0x20,0x78,0x0A,0x20,0x20,0x27,0x27,0x27]
+    mlsRewrite ({ Config.default with crlf := false }).settings c 1 0 = none ∧
+    mlsRewrite ({ Config.default with crlf := true }).settings c 1 0 = some (crlfOf c) := by decide
+
+/-- **Why the literal has to end in a quote.**  `lines_custom` gives a text that ends in `\r\n` one (empty) line more
+    than the same text ending in `\n`: for a "literal" ending in a line break the two runs would re-indent different
+    lines.  The scanner's multi-line literals end in three quotes; hypothesis (1) of `crlfStageOk`. -/
+theorem lines_custom_trailing_break_example :
+    linesCustom [0x61, 0x0A] = [[0x61]] ∧ linesCustom [0x61, 0x0D, 0x0A] = [[0x61], []] := by decide
+
+/-- **Why line-spanning verbatim tokens are excluded.**  A block comment `{ LF }` is emitted as it is under both line
+    endings, so the crlf output is not the substituted lf output; hypothesis (3) of `crlfStageOk` (`safeTok`). -/
+theorem verbatim_break_example :
+    let t : FTok := { tok := { ws := [], content := [0x7B, 0x0A, 0x7D], kind := .tComment .cMultilineBlock },
+                      fmt := { ignored := false, nl := 0, ind := 0, cont := 0, sp := 0 } }
+    reconstruct ({ Config.default with crlf := true }).settings [t] = [0x7B, 0x0A, 0x7D] ∧
+    crlfOf (reconstruct ({ Config.default with crlf := false }).settings [t]) = [0x7B, 0x0D, 0x0A, 0x7D] := by decide
+
+/-- **The wrapper stage with the search inside and the reconstructor, in the two runs.**  `lines`, `ft0`: the state the
+    stage starts from.  If the lf run answers and the decidable side conditions `crlfStageOk cfg lines ft0` hold -
+    (1) every non-ignored multi-line literal of `ft0` ends in a quote, (2) with string formatting on, for every token
+    of the lf run's state at the start of the first string pass the two runs agree on whether the re-indenter
+    changes it (`agreeTok`; excludes literals already in final lf or crlf form, see `mls_rewrite_disagree_example`),
+    (3) every token of the lf run's final state is `safeTok`: an ignored token has no `\n` in whitespace or text, any
+    other token has no `\n` in its text unless the stage changed the text (excludes multi-line comments, line breaks
+    inside verbatim regions and multi-line literals the re-indenter rejects) - then the crlf run answers, applies the
+    same solutions in the same order, and its output is the lf output with every `\n` replaced by `\r\n`. -/
+theorem C09_wrap_stage_crlf_config (cfg : Config) (lines : List Line) (ft0 ftz : FT) (sols : List (Nat × Nat × Sol))
+    (h : wrapStageFull { cfg with crlf := false } lines ft0 = some (ftz, sols))
+    (hok : crlfStageOk cfg lines ft0 = true) :
+    ∃ ftz', wrapStageFull { cfg with crlf := true } lines ft0 = some (ftz', sols) ∧
+      reconstruct ({ cfg with crlf := true }).settings ftz' =
+        crlfOf (reconstruct ({ cfg with crlf := false }).settings ftz) :=
+  wrapStageFull_crlf_output cfg lines ft0 ftz sols h hok
+
+/-- the same with the three side conditions spelled out instead of the Boolean check; the final state of the crlf run
+    is related to that of the lf run token by token (`CrlfFull.RelC`: same type, same counters, ignored tokens
+    identical, texts identical and unchanged by the stage or the two renderings of the same lines) -/
+theorem C09_wrap_stage_crlf_config_rel (cfg : Config) (lines : List Line) (ft0 ftz : FT) (sols : List (Nat × Nat × Sol))
+    (h : wrapStageFull { cfg with crlf := false } lines ft0 = some (ftz, sols))
+    (hq : ∀ t ∈ ft0, mlsLive t = true → t.tok.content.getLast? = some 0x27)
+    (hagree : cfg.fmtMls = true → ∀ ft1, phase0 { cfg with crlf := false } lines ft0 = some ft1 →
+      ∀ t ∈ ft1, agreeTok ({ cfg with crlf := false }).settings ({ cfg with crlf := true }).settings t = true) :
+    ∃ ftz', wrapStageFull { cfg with crlf := true } lines ft0 = some (ftz', sols) ∧
+      RelC (fun _ => True) (origContent ft0) ftz ftz' :=
+  wrapStageFull_crlf cfg lines ft0 ftz sols h hq hagree
+
+/-- **C09, second clause, for the closed model of the whole formatter.**  If `formatFull` with `crlf := false` answers
+    `outL` and the side conditions `crlfOk cfg alnum s` hold (`crlfStageOk` at the state the wrapper stage starts
+    from, which does not depend on the configuration; all three are computed from the lf run), then `formatFull` with
+    `crlf := true` answers `outL` with every `\n` replaced by `\r\n`.  No contract, no oracle: scanner, parser,
+    consolidators, rules, the search, the string passes and the reconstructor are the model's own. -/
+theorem C09_format_full_crlf_config (cfg : Config) (alnum : Bytes → Bool) (s outL : Bytes)
+    (hok : crlfOk cfg alnum s = true)
+    (h : formatFull { cfg with crlf := false } alnum s = some outL) :
+    formatFull { cfg with crlf := true } alnum s = some (crlfOf outL) :=
+  formatFull_crlf_config cfg alnum s outL hok h
+
+/-! Tests (labelled as tests: evaluated by the compiler with `#guard`, not theorems - the kernel cannot run the search).
+    `agree s`: the crlf output is the substituted lf output; `ok s`: the side conditions of
+    `C09_format_full_crlf_config` hold. -/
+section Tests
+private def agree (s : String) : Bool :=
+  (formatFull { Config.default with crlf := false } (fun _ => false) s.toUTF8.toList).map crlfOf ==
+    formatFull { Config.default with crlf := true } (fun _ => false) s.toUTF8.toList
+private def ok (s : String) : Bool := crlfOk Config.default (fun _ => false) s.toUTF8.toList
+
+-- no line-spanning token
+#guard ok "begin a := 1; end." && agree "begin a := 1; end."
+-- a literal that both runs re-indent (lf, crlf and mixed interior breaks)
+#guard ok "begin\n a := '''\n   x\n   y\n   ''';\nend." && agree "begin\n a := '''\n   x\n   y\n   ''';\nend."
+#guard ok "begin\n a := '''\r\n   x\n   y\r\n   ''';\nend." && agree "begin\n a := '''\r\n   x\n   y\r\n   ''';\nend."
+-- already in final lf form: side condition (2) fails (`mls_rewrite_disagree_example`), the outputs still agree
+#guard !ok "begin\n  a :=\n      '''\n      x\n      y\n      ''';\nend.\n" &&
+  agree "begin\n  a :=\n      '''\n      x\n      y\n      ''';\nend.\n"
+-- a literal the re-indenter rejects (a line indented less than the closing quotes), a block comment over two lines,
+-- a verbatim region over several lines: side condition (3) fails and the outputs do differ
+#guard !ok "begin\n  a :=\n      '''\n   x\n      ''';\nend.\n" && !agree "begin\n  a :=\n      '''\n   x\n      ''';\nend.\n"
+#guard !ok "begin\n  a := 1; { x\n y }\nend.\n" && !agree "begin\n  a := 1; { x\n y }\nend.\n"
+#guard !ok "begin\n  // pasfmt off\n  a   :=  1;\n  // pasfmt on\nend.\n" &&
+  !agree "begin\n  // pasfmt off\n  a   :=  1;\n  // pasfmt on\nend.\n"
+end Tests
 
 end Pasfmt.C09
